@@ -117,13 +117,20 @@ func (m *Mast) Delete(ctx context.Context, key, value interface{}) error {
 		return fmt.Errorf("savePathForRoot: %w", err)
 	}
 	m.size--
-	for m.size <= m.shrinkBelowSize && m.height > 0 {
+	for m.height > 0 && (m.size <= m.shrinkBelowSize || m.rootIsKeyless()) {
 		err = m.shrink(ctx)
 		if err != nil {
 			return fmt.Errorf("shrink: %w", err)
 		}
 	}
 	return nil
+}
+
+// rootIsKeyless reports whether the (in-memory) root node holds no entry, that
+// is, whether no key is left in the tree's top layer.
+func (m *Mast) rootIsKeyless() bool {
+	root, ok := m.root.(*mastNode)
+	return ok && len(root.Key) == 0
 }
 
 func findEntry(ctx context.Context, m *Mast, key, value interface{}, options *findOptions) (*mastNode, int, error) {
